@@ -543,6 +543,12 @@ def run_filter(chk: Check, mr: ModelRun, info: dict):
     chk.extra['excused_builtins'] = m_exc
     chk.extra['stale_known_findings'] = [f'builtin-leak:{n}' for n in stale]
     chk.extra['checker_blocked_attrs'] = m_blocked
+    refl = names(mr.ask(['(reflective_attrs)'])[0])
+    chk.extra['reflective_attrs_not_blocked_by_checker'] = sorted(set(refl) - set(m_blocked))
+    if set(refl) - set(m_blocked):
+        chk.assumptions.append('C17_sandbox is proved for expressions whose reflective attribute names are rejected by the checker; '
+                               'not rejected at this tree: ' + ' '.join(sorted(set(refl) - set(m_blocked))) +
+                               ' (escapes through them are probed by S2)')
     if m_exc:
         chk.assumptions.append('C17_no_dangerous_builtin is proved up to the names excused by KNOWN_FINDINGS.jsonl: ' + ' '.join(m_exc))
     chk.sample({'safe_builtins': real, 'leaks': real_leaks})
@@ -559,6 +565,10 @@ def explains(ev: str) -> set:
         if ev == k or (k.endswith('.') and ev.startswith(k)):
             return v
     return set()
+
+
+def seen_sig(chk: Check, sig: str) -> bool:
+    return sig in chk.known_hits or any(v['signature'] == sig for v in chk.violations)
 
 
 def shrink_expr(expr: str, bad) -> str:
@@ -578,7 +588,7 @@ def shrink_expr(expr: str, bad) -> str:
                 subs.append(ast.unparse(n))
             except Exception:
                 pass
-        for s in sorted(set(subs), key=len):
+        for s in sorted(set(subs), key=len, reverse=True)[:10]:
             if len(s) < len(expr) and bad(s):
                 expr = s
                 changed = True
@@ -641,10 +651,10 @@ def run_checker_and_eval(chk: Check, mr: ModelRun, info: dict, scratch: Path, re
                 r = run_child([{'kind': 'direct', 'ctx': c, 'expr': s}], scratch)[0]['safe']
                 m = mr.ask([f'(check {ctxs[c]} {tree_sx(parse_tree(s))})'])[0] == '1'
                 return r is not m
-            small = shrink_expr(e, bad) if bad_s1 <= 3 else e
+            small = shrink_expr(e, bad) if bad_s1 <= 2 else e
             t2 = parse_tree(small)
             shape = 'unparsable' if t2 is None else type(ast.parse(small, mode='eval').body).__name__
-            chk.violation(f'corr:check:{c}:{shape}', f'is_eval_safe({small!r}) = {real_safe} in context {c!r}, the model says {model_safe}',
+            chk.violation(f'corr:check:{shape}', f'is_eval_safe({small!r}) = {real_safe} in context {c!r}, the model says {model_safe}',
                           {'correspondence': 'S1', 'context': c, 'expr': small, 'impl': real_safe, 'model': model_safe})
         if not ev:
             continue
@@ -678,7 +688,9 @@ def run_checker_and_eval(chk: Check, mr: ModelRun, info: dict, scratch: Path, re
                 def bad(s, c=c, evn=evn):
                     r = run_child([{'kind': 'direct', 'ctx': c, 'expr': s, 'eval': True}], scratch)[0]
                     return r['safe'] is True and evn in r.get('events', [])
-                small = shrink_expr(e, bad) if unexplained < 4 else e
+                first0 = next((a for a in attrs_of(e)[::-1] if a in nd), nd[0])
+                sig0 = 'escape:str-format-dunder' if first0 in ('format', 'format_map') else f'escape:attr:{first0}'
+                small = shrink_expr(e, bad) if not seen_sig(chk, sig0) else e
                 first = next((a for a in attrs_of(small)[::-1] if a in nd), nd[0])
                 unexplained += 1
                 sig = 'escape:str-format-dunder' if first in ('format', 'format_map') else f'escape:attr:{first}'
@@ -727,13 +739,14 @@ def run_parser(chk: Check, mr: ModelRun, scratch: Path, real_leaks: set):
              "help('keywords')", "delattr(a, 'x')", "quit()", f"max(['/etc/hostname'], key={ESCAPE_BOX}.get('open'))",
              "getattr(a, 'upper')", "__import__('os')", "type(a)", "(a for a in a).gi_frame"]
     atoms = ['a', '{a}', 'nope', '{nope}', ' ', 'x', "'", '"', '1', '(', ')', '.upper()', '{', '}', 'abs(-1)', '\n', '+', 'len(a)']
-    for _ in range(150 if chk.quick else 3000):
+    for _ in range(60 if chk.quick else 3000):
         lits.append(''.join(rng.choice(atoms) for _ in range(rng.randint(1, 4))))
     lits = list(dict.fromkeys(lits))
     jobs = []
     for l in lits:
         jobs.append({'kind': 'parse', 'literal': l, 'via': 'patch', 'alert': False})
-        jobs.append({'kind': 'parse', 'literal': l, 'via': 'patch', 'alert': True})
+        if not chk.quick or len(jobs) % 3 == 0 or 'nope' in l or 'open' in l:
+            jobs.append({'kind': 'parse', 'literal': l, 'via': 'patch', 'alert': True})
         if '`' not in l and l.strip() and l == l.strip() and '\n' not in l:
             jobs.append({'kind': 'parse', 'literal': l, 'via': 'text', 'alert': False})
     replies = run_child(jobs, scratch)
@@ -744,6 +757,11 @@ def run_parser(chk: Check, mr: ModelRun, scratch: Path, real_leaks: set):
         if 'error' in rep:
             raise RuntimeError(f'child error on {job}: {rep["error"]}')
         if 'trace' not in rep:
+            if job['via'] == 'patch':
+                chk.violation('oracle:probe-grammar-rejected', "the probe grammar start = a:'x' b:`0` $ ; no longer compiles: "
+                              + str(rep.get('outcome')), {'oracle': 'S3', 'job': job, 'reply': rep})
+            else:
+                chk.count('S3.text.grammar_rejected')
             continue
         lit = job['literal'] if job['via'] == 'patch' else rep.get('grammar_literal')
         if not isinstance(lit, str):
@@ -859,8 +877,8 @@ def run_parser(chk: Check, mr: ModelRun, scratch: Path, real_leaks: set):
             else:
                 chk.violation(f'escape:parser:{evn}', f'parsing with the constant {lit!r} fires the audit event {evn!r}',
                               {'oracle': 'S2 parser', 'literal': lit, 'alert': job['alert'], 'event': evn})
-    chk.obligation('S3:ParseContext.constant vs the extracted loop on recorded oracle tables', 'correspondence', bad == 0,
-                   f'{bad} disagreement(s)')
+    chk.obligation('S3:ParseContext.constant vs the extracted loop on recorded oracle tables', 'correspondence',
+                   bad == 0 and len(idx) >= len(lits), f'{bad} disagreement(s) over {len(idx)} compared runs')
     chk.sample({'S3': jobs[3]['literal'], 'impl': replies[3].get('outcome'), 'value': replies[3].get('value')})
 
     # data-driven injection: the text being parsed reaches the evaluator through `{a}` (second-order evaluation)
